@@ -547,6 +547,31 @@ pub fn execute(c: &SlCase, which: &str) -> Run {
                         }
                     }
                     if which == "C11" {
+                        // fleet level: the vector of simulations reports the sums of its members' trip outputs
+                        let mut s7 = sim.clone();
+                        let mut v7 = serde_json::to_value(&s7).unwrap();
+                        v7["simulation_days"] = serde_json::json!(7);
+                        if let Ok(x) = serde_json::from_value(v7) {
+                            s7 = x;
+                        }
+                        let fleet = altrios_core::train::SpeedLimitTrainSimVec(vec![sim.clone(), s7.clone(), sim.clone()]);
+                        for ann in [false, true] {
+                            run.checks += 4;
+                            let members = [&sim, &s7, &sim];
+                            let fuel: f64 = members.iter().map(|m| m.get_energy_fuel(ann).value).sum();
+                            let res: f64 = members.iter().map(|m| m.get_net_energy_res(ann).value).sum();
+                            let km: f64 = members.iter().map(|m| m.get_kilometers(ann)).sum();
+                            let mgkm: f64 = members.iter().map(|m| m.get_megagram_kilometers(ann)).sum();
+                            let ok = close_tol(fleet.get_energy_fuel(ann).value, fuel, 1e-9, 1e-6)
+                                && close_tol(fleet.get_net_energy_res(ann).value, res, 1e-9, 1e-6)
+                                && close_tol(fleet.get_kilometers(ann), km, 1e-9, 1e-9)
+                                && close_tol(fleet.get_megagram_kilometers(ann), mgkm, 1e-9, 1e-9);
+                            if !ok {
+                                run.fails.push(("fleet-trip-output-not-sum-of-members@SpeedLimitTrainSimVec::get_*".into(), format!("annualize={ann}: fleet fuel {} res {} km {} Mg-km {} vs member sums {fuel} {res} {km} {mgkm}", fleet.get_energy_fuel(ann).value, fleet.get_net_energy_res(ann).value, fleet.get_kilometers(ann), fleet.get_megagram_kilometers(ann))));
+                            }
+                        }
+                    }
+                    if which == "C11" {
                         // the annualization period handed to EITHER builder entry point is the one the simulation reports with
                         let n = c.link_len.len();
                         let lm = location_map(&[("A", vec![1]), ("B", vec![n])]);
